@@ -4,7 +4,7 @@ from vlib.core import Case, hx
 ID = "C14"
 NEEDS_CLI = True
 RULE = ("ops path.parse / path.for_index / hdk.derive on text vs printed form: component values 0,1,2^31-1,2^31,2^32-1,2^32,2^64 "
-        "and random, with/without ', depths 1..12, canonical and non-canonical spellings, malformed stream; "
+        "and random, with/without ', depths 1..12 and 13..1000 (around 255/256), canonical and non-canonical spellings, malformed stream; "
         "a random sample of the cases is re-run through every sub-command that reaches the same code (vlib/routes.py); non-trivial = distinct text; judge = grammar of the statement (canonical must be accepted and print back, "
         "non-standard must be an error)")
 EXHAUSTIVE_SWEEPS = {"quick": ["every boundary value x {hardened, normal} at depth 1 and as last of 5"],
@@ -34,6 +34,11 @@ def gen(rng, tier):
     for _ in range(n):
         depth = rng.randint(1, 12)
         add("m/" + "/".join(comp(rng) for _ in range(depth)), "valid", "depth:%d" % depth)
+    for depth in [13, 32, 64, 100, 255, 256, 257, 300, 1000]:
+        cs = [comp(rng) for _ in range(depth)]
+        add("m/" + "/".join(cs), "valid", "deep", "depth:%d" % depth)
+        cs[rng.randrange(depth)] = comp(rng, good=False)
+        add("m/" + "/".join(cs), "one-bad-component", "deep")
     for _ in range(n // 2):
         depth = rng.randint(1, 6)
         cs = [comp(rng) for _ in range(depth)]
